@@ -12,7 +12,7 @@ REQUIRED_THEOREMS = [
     'C12_msum_eq_filterMap', 'C12_mean_var_are_documented', 'C12_bandwidth_is_documented',
     'C12_logsumexp', 'C12_softmax',
     'C12_gaussian_is_documented', 'C12_lognormal_is_documented', 'C12_gaussianKDE_is_documented',
-    'C12_mixture_is_documented', 'C12_lognormalKDE_is_documented_partial',
+    'C12_mixture_is_documented', 'C12_lognormalKDE_is_documented', 'C12_lognormalKDE_legacy_partial',
     'C12_lognormalKDE_jacobian_counterexample', 'C12_lognormalKDE_bandwidth_counterexample',
     'C12_spec_twin', 'C12_composed_sortTimes',
     'C12_nan_padding', 'C12_perm_individuals', 'C12_cell_multiset',
@@ -227,20 +227,21 @@ def run_simple(ctx, chi, rng, kind, K, obs, sim, tag='gen'):
     every_cell = bool((~np.isnan(obs)).any(axis=0).all())
     if not every_cell or not math.isfinite(v):
         return f, v, g
-    if kind == 'LNKDE':
-        doc = doc_value(kind, K, obs, sim)
-        if not math.isnan(doc):
-            ctx.spec('C12.documented/' + name, core.close(v, doc), inp, {'chi': v, 'documented': doc})
-        alt = doc_value(kind, K, obs, sim, 'simulated') + float(np.nansum(np.log(obs)))
-        ctx.spec('C12.documented_modulo_known/' + name, core.close(v, alt), inp,
-                 {'chi': v, 'documented(sim bandwidth) + sum log y': alt})
-        if math.isfinite(mo[3]):
-            ctx.agree('C12.spec_twin', doc_value(kind, K, obs, sim, 'simulated'), mo[3], inp, rtol=1e-8)
-    else:
-        doc = doc_value(kind, K, obs, sim)
-        ctx.spec('C12.documented/' + name, core.close(v, doc), inp, {'chi': v, 'documented': doc})
-    if math.isfinite(mo[2]) and not math.isnan(doc):
+    # documented value; for the log-normal KDE: the log-normal kernel density with the rule-of-thumb
+    # bandwidth of the SIMULATED log-values (what the class computes since 95a9ff7)
+    doc = doc_value(kind, K, obs, sim, 'simulated')
+    ctx.spec('C12.documented/' + name, core.close(v, doc), inp, {'chi': v, 'documented': doc})
+    if math.isfinite(mo[2]):
         ctx.agree('C12.spec_twin', doc, mo[2], inp, rtol=1e-8)
+    if kind == 'LNKDE':
+        # the class docstring takes the bandwidth from the MEASURED log-values: known finding
+        docm = doc_value(kind, K, obs, sim, 'measured')
+        if not math.isnan(docm):
+            ctx.spec('C12.documented_bandwidth/' + name, core.close(v, docm), inp,
+                     {'chi': v, 'documented with the bandwidth of the measured values': docm,
+                      'documented with the bandwidth of the simulated values': doc})
+            if math.isfinite(mo[3]) and math.isfinite(docm):
+                ctx.agree('C12.spec_twin_measured_bandwidth', docm, mo[3], inp, rtol=1e-8)
     fd_checks(ctx, 'C12.grad/' + name, f, sim, g, rng, inp)
     # NaN padding (appended and interleaved all-missing individuals) and permutation of individuals
     extra = int(rng.integers(1, 4))
@@ -364,8 +365,7 @@ def run_composed(ctx, chi, rng, obs, sim_for, same_kind):
     ctx.agree('C12.comp.n_times', int(C.n_times()), T, inp)
     # ---- property
     ctx.spec('C12.composed/S1_value', core.close(v, s1), inp, {'ll': v, 'S1': s1})
-    doc = sum(doc_value(k, K, obs[:, :, a:b], sim[:, :, a:b], 'simulated') +
-              (float(np.nansum(np.log(obs[:, :, a:b]))) if k == 'LNKDE' else 0.0)
+    doc = sum(doc_value(k, K, obs[:, :, a:b], sim[:, :, a:b], 'simulated')
               for (k, K), (a, b) in zip(kinds, blocks))
     if math.isfinite(v):
         ctx.spec('C12.composed/documented_sum', core.close(v0, doc), inp, {'chi': v0, 'documented': doc})
@@ -451,20 +451,29 @@ WITNESS = {'obs': [[[2.0]], [[3.0]]], 'sim': [[[2.0]], [[3.0]]]}
 
 
 def witness(ctx, chi):
-    """replay of C12_lognormalKDE_jacobian_counterexample on chi"""
+    """replay of C12_lognormalKDE_jacobian_counterexample on chi: the LEGACY class exceeded the documented
+    value by log 2 + log 3 on this input; the repaired class must return the documented value"""
     obs = np.array(WITNESS['obs'])
     sim = np.array(WITNESS['sim'])
     f = chi.LogNormalKDEFilter(obs)
     v = float(f.compute_log_likelihood(sim))
-    doc_sim = doc_value('LNKDE', 0, obs, sim, 'simulated')
-    doc = doc_value('LNKDE', 0, obs, sim)
-    inp = {'filter': 'LogNormalKDEFilter', 'obs': obs, 'sim': sim, 'witness': True}
-    ctx.spec('C12.documented/LogNormalKDEFilter', core.close(v, doc), inp,
-             {'chi': v, 'documented': doc, 'documented with simulated bandwidth': doc_sim,
-              'sum log y': float(np.sum(np.log(obs)))})
-    ctx.spec('C12.documented_modulo_known/LogNormalKDEFilter',
-             core.close(v, doc_sim + float(np.sum(np.log(obs)))), inp)
+    s1 = float(f.compute_sensitivities(sim)[0])
+    doc = doc_value('LNKDE', 0, obs, sim, 'simulated')
+    inp = {'filter': 'LogNormalKDEFilter', 'n_kernels': 0, 'obs': obs, 'sim': sim, 'witness': True}
+    ctx.spec('C12.documented/LogNormalKDEFilter', core.close(v, doc) and core.close(s1, doc), inp,
+             {'chi': v, 'S1': s1, 'documented': doc, 'legacy value': doc + float(np.sum(np.log(obs)))})
     ctx.case('witness/lnkde')
+
+
+def simple_case(ctx, chi, rng, kind, K, obs, sim, i):
+    res = run_simple(ctx, chi, rng, kind, K, obs, sim)
+    if res is None:
+        return
+    f, v, g = res
+    if math.isfinite(v):
+        run_sort(ctx, chi, rng, kind, K, obs, sim, v, g)
+    if i % 10 == 0:
+        sort_errors(ctx, chi, rng, kind, K, obs, sim)
 
 
 def run(ctx):
@@ -472,9 +481,9 @@ def run(ctx):
     quick = ctx.tier == 'quick'
     n_simple = 150 if quick else 2500
     n_comp = 90 if quick else 1500
-    boundary(ctx, chi, ctx.sub_rng(10 ** 6))
-    composed_errors(ctx, chi, ctx.sub_rng(10 ** 6 + 1))
-    witness(ctx, chi)
+    ctx.guard(boundary, ctx, chi, ctx.sub_rng(10 ** 6))
+    ctx.guard(composed_errors, ctx, chi, ctx.sub_rng(10 ** 6 + 1))
+    ctx.guard(witness, ctx, chi)
     for i in range(n_simple):
         rng = ctx.sub_rng(i)
         kind, K = gen_kind(rng) if i >= 10 else (KINDS[i % 5], 2 if KINDS[i % 5] == 'MIX' else 0)
@@ -487,14 +496,7 @@ def run(ctx):
         sim = rng.uniform(0.3, 4.0, (n, R, T))
         if rng.random() < 0.25:
             sim = sim * rng.uniform(0.2, 3.0, (1, R, T))
-        res = run_simple(ctx, chi, rng, kind, K, obs, sim)
-        if res is None:
-            continue
-        f, v, g = res
-        if math.isfinite(v):
-            run_sort(ctx, chi, rng, kind, K, obs, sim, v, g)
-        if i % 10 == 0:
-            sort_errors(ctx, chi, rng, kind, K, obs, sim)
+        ctx.guard(simple_case, ctx, chi, rng, kind, K, obs, sim, i)
     for i in range(n_comp):
         rng = ctx.sub_rng(500000 + i)
         m = int(rng.integers(1, 7))
@@ -502,7 +504,7 @@ def run(ctx):
         T = int(rng.integers(1, 6))
         obs = gen_obs(rng, m, R, T, rng.random() < 0.7)
         base = rng.uniform(0.3, 4.0, (12, R, T))
-        run_composed(ctx, chi, rng, obs, lambda n: base[:n].copy(), same_kind=(i % 2 == 0))
+        ctx.guard(run_composed, ctx, chi, rng, obs, lambda n: base[:n].copy(), same_kind=(i % 2 == 0))
 
 
 def replay(ctx, data):
@@ -525,8 +527,7 @@ def replay(ctx, data):
         print('chi value', v, 'S1', s1, 'error', err)
         print('documented', doc_value(kind, K, obs, sim))
         if kind == 'LNKDE':
-            print('documented (simulated bandwidth) + sum log y',
-                  doc_value(kind, K, obs, sim, 'simulated') + float(np.nansum(np.log(obs))))
+            print('documented (bandwidth of the simulated values)', doc_value(kind, K, obs, sim, 'simulated'))
         print('model', ctx.model('C12.filter', wire_filt(kind, K, obs), [], sim.tolist())[:1])
         print('chi gradient', None if g is None else g.tolist())
     elif 'filters' in inp:
